@@ -220,6 +220,26 @@ fn build(case: &Case) -> Result<Built, Violation> {
                         ),
                     ));
                 }
+                // the second formatter for frames without a body (the one replies to link requests are made with)
+                if f.payload.is_empty() {
+                    let mut fixed = [0u8; 10];
+                    crate::link::format::format_header_fixed_size(
+                        Header::new(ControlField::from(f.ctrl), AnyAddress::from(f.dest), AnyAddress::from(f.src)),
+                        &mut fixed,
+                    );
+                    if fixed[..] != reference[..] {
+                        return Err(Violation::new(
+                            "C06/format-differs",
+                            "fixed-size-header",
+                            format!(
+                                "library fixed-size header differs from the reference framer for {:?}: lib={} ref={}",
+                                f,
+                                io::hex(&fixed),
+                                io::hex(&reference)
+                            ),
+                        ));
+                    }
+                }
                 frames.push((stream.len(), lib.len(), f.clone()));
                 stream.extend_from_slice(&lib);
             }
@@ -753,6 +773,27 @@ impl Scenario for LinkScenario {
                     format!(
                         "stream contains a framing error but the reader ended with {:?}",
                         got.error
+                    ),
+                ));
+            }
+        }
+        if violation.is_none() && (!case.close_mode || !ref_error) {
+            // in Discard mode noise is skipped, and a clean stream has no noise: the reader ends with the end of the stream, never
+            // with a framing error of its own (which would end a live session although every intact frame had been delivered)
+            let is_frame_err = got
+                .error
+                .as_deref()
+                .map(|e| e.contains("BadFrame") || e.contains("BadLogic"))
+                .unwrap_or(false);
+            if is_frame_err {
+                violation = Some(Violation::new(
+                    "C06/spurious-framing-error",
+                    if case.close_mode { "clean-stream" } else { "discard-mode" },
+                    format!(
+                        "the reader ended with {:?} although {} (frames delivered: {})",
+                        got.error,
+                        if case.close_mode { "the stream contains no framing error" } else { "it is configured to discard what does not parse" },
+                        got.frames.len()
                     ),
                 ));
             }
